@@ -313,6 +313,8 @@ pub const STMT_L53: &[&str] = &[
     "x = a & (b == c)",
 ];
 pub const STMT_L54: &[&str] = &[
+    "local name, handle <close> = \"log\", open(\"log\")",
+    "local a, b <const>, c = 1, 2, 3",
     "local x <const> = 1",
     "local x <close> = f()",
     "local a <const>, b <close> = 1, 2",
@@ -320,6 +322,9 @@ pub const STMT_L54: &[&str] = &[
 ];
 pub const STMT_JIT: &[&str] = &["local x = 1LL", "local x = 1ULL", "local x = 2i", "local x = 0x10LL", "goto l", "::l::"];
 pub const STMT_LUAU: &[&str] = &[
+    // a local whose annotated name is not the first one
+    "local ok, err: string? = pcall(callback)",
+    "local a, b: number, c = 1, 2, 3",
     // string singleton types written with long brackets (also as indexer of a table type)
     "type T = { [ [[x]] ]: number }",
     "type T = { [ [=[x]=] ]: number, [string]: any }",
@@ -959,6 +964,38 @@ pub fn f_expr(thorough: bool) -> Vec<Case> {
             specs.push((s, 2));
         }
     }
+    // depth 1 — a single unary or binary operator, bare and inside one / two pairs of parentheses — in EVERY context of both
+    // lists, in both tiers (the Luau contexts `(E) :: T`, `x += E`, if-expressions and interpolated strings included)
+    {
+        let bins: Vec<&str> = BINOPS_CORE.iter().chain(BINOPS_53.iter()).cloned().collect();
+        let uns: Vec<&str> = UNOPS_CORE.iter().chain(UNOPS_53.iter()).cloned().collect();
+        let every: Vec<&Ctx> = CTXS_QUICK.iter().chain(CTXS_MORE.iter()).collect();
+        let mut d1: Vec<ExprSpec> = vec![];
+        for u in &uns {
+            for lvl in 0..=2 {
+                d1.push(ExprSpec { toks: wrap(vec![op(u), at("a")], lvl), dial: op_dial(u, true) });
+                d1.push(ExprSpec { toks: wrap(vec![op(u), at(L)], lvl), dial: op_dial(u, true) });
+            }
+        }
+        for o in &bins {
+            for lvl in 0..=2 {
+                d1.push(ExprSpec { toks: wrap(vec![at("a"), op(o), at("b")], lvl), dial: op_dial(o, false) });
+            }
+        }
+        for s in &d1 {
+            let e = render(&s.toks);
+            let f = full_of(&s.toks);
+            for c in &every {
+                if c.dial == Dial::Luau && s.dial != Dial::Core && s.dial != Dial::Luau {
+                    continue;
+                }
+                let dial = if c.dial == Dial::Luau { Dial::Luau } else { s.dial };
+                let mut cs = case("F-EXPR", dial, place(c, &e));
+                cs.meta.full = Some(place(c, &f));
+                v.push(cs);
+            }
+        }
+    }
     let all_ctxs: Vec<&Ctx> = if thorough { CTXS_QUICK.iter().chain(CTXS_MORE.iter()).collect() } else { CTXS_QUICK.iter().collect() };
     for (s, nctx) in &specs {
         let e = render(&s.toks);
@@ -989,10 +1026,15 @@ pub fn f_trunc() -> Vec<Case> {
                 e = format!("({})", e);
             }
             for c in &ctxs {
-                let text = if i == "..." { format!("local function w(...)\n{}end\n", place(c, &e)) } else { place(c, &e) };
-                let mut cs = case("F-TRUNC", c.dial, text);
-                cs.meta.full = None;
-                v.push(cs);
+                // as written, and with blanks / a line break / a comment inside the parentheses (trivia on the inner tokens)
+                let spaced = e.replace('(', "( ").replace(')', " )");
+                let forms: Vec<String> = if lvl == 1 { vec![e.clone(), spaced.clone(), spaced.replace("( ", "(\n\t").replace(" )", "\n)"), e.replace(')', " --[[c]])")] } else { vec![e.clone(), spaced] };
+                for e in forms {
+                    let text = if i == "..." { format!("local function w(...)\n{}end\n", place(c, &e)) } else { place(c, &e) };
+                    let mut cs = case("F-TRUNC", c.dial, text);
+                    cs.meta.full = None;
+                    v.push(cs);
+                }
             }
         }
     }
@@ -1003,7 +1045,7 @@ pub fn f_trunc() -> Vec<Case> {
 // F-TRIVIA: a comment in every token gap
 // ------------------------------------------------------------------------------------------------------------
 
-pub const COMMENT_KINDS: usize = 7;
+pub const COMMENT_KINDS: usize = 8;
 
 fn comment_text(kind: usize, id: usize) -> (String, bool) {
     // (text, needs_line_break_after)
@@ -1015,7 +1057,9 @@ fn comment_text(kind: usize, id: usize) -> (String, bool) {
         4 => (format!("-- c{}x \n", id), true),
         // kinds 5 and 6: the comment sits on a line of its own (so it is LEADING trivia of the next token)
         5 => (format!("\n--c{}x", id), true),
-        _ => (format!("\n--[[c{}x]]\n", id), false),
+        6 => (format!("\n--[[c{}x]]\n", id), false),
+        // kind 7: a block comment at the START of the line on which the next token stands
+        _ => (format!("\n--[[c{}x]]", id), false),
     }
 }
 
@@ -1817,6 +1861,8 @@ pub fn f_call(thorough: bool) -> Vec<Case> {
     let args: &[&str] = &[
         "\"s\"", "'s'", "[[s]]", "{}", "{ 1 }", "{ a = 1 }", "(\"s\")", "({})", "((\"s\"))", "a", "", "\"s\", a", "{}, {}", "'it\\'s'", "\"say \\\"hi\\\"\"",
         "function() end", "...", "\"ssssssssssssssssssssssssssssssssssssssss\"",
+        // a single table argument that contains a comment is still a single table argument
+        "{ --[[c]] 1 }", "{\n\t-- c\n\ta = 1,\n}", "{ a = 1, --[[c]] }",
     ];
     let nexts = ["", ".k", "[k]", ":m()", "()", ".k.j", ":m\"s\"", "\"t\"", "{}"];
     for c in callees {
@@ -1824,7 +1870,7 @@ pub fn f_call(thorough: bool) -> Vec<Case> {
             for n in nexts {
                 // written with parentheses, and (for single string / table arguments) in sugar form too
                 let mut forms = vec![format!("{}({}){}", c, a, n)];
-                if matches!(*a, "\"s\"" | "'s'" | "[[s]]" | "{}" | "{ 1 }" | "{ a = 1 }" | "'it\\'s'") {
+                if matches!(*a, "\"s\"" | "'s'" | "[[s]]" | "{}" | "{ 1 }" | "{ a = 1 }" | "'it\\'s'" | "{ --[[c]] 1 }") {
                     forms.push(format!("{} {}{}", c, a, n));
                     forms.push(format!("{}{}{}", c, a, n));
                 }
@@ -2054,9 +2100,17 @@ pub fn f_type(thorough: bool) -> Vec<Case> {
         ("local x = y :: ", "\n"),
         ("type Opt = (", ")?\n"),
     ];
-    for (op, specials) in [("|", &specials_union[..]), ("&", &specials_inter[..])] {
+    // every parenthesised special also inside a second, redundant pair of parentheses (the inner pair stays necessary)
+    let doubled = |list: &[&str]| -> Vec<String> {
+        let mut v: Vec<String> = list.iter().map(|x| x.to_string()).collect();
+        v.extend(list.iter().filter(|x| x.starts_with('(')).map(|x| format!("({})", x)));
+        v
+    };
+    let su = doubled(&specials_union);
+    let si = doubled(&specials_inter);
+    for (op, specials) in [("|", &su), ("&", &si)] {
         for pos in 0..3 {
-            for sp in specials.iter() {
+            for sp in specials.iter().map(|x| x.as_str()) {
                 let mut members: Vec<&str> = plain.to_vec();
                 members[pos] = sp;
                 for n in [2usize, 3] {
@@ -2219,6 +2273,106 @@ pub fn f_req_large(thorough: bool) -> Vec<Case> {
                     }
                     let mut c = case("F-REQ", Dial::Core, text);
                     c.meta.req = items;
+                    v.push(c);
+                }
+            }
+        }
+    }
+    v
+}
+
+/// edge arrangements around an ignored statement: a formatted neighbour on the SAME line behind its `;`, and an ignored
+/// last statement that is the only statement of its block
+pub fn f_ign_edges() -> Vec<Case> {
+    let mut v = Vec::new();
+    for st in ["local x   =   1", "f(  a  )", "x   =   y", "t  =  { a,b }"] {
+        for dir in ["-- stylua: ignore", "--[[ stylua: ignore ]]"] {
+            for nb in ["local y   =   2", "g(  1,2  )"] {
+                for (pre, post, ind) in [("", "", ""), ("do\n", "end\n", "\t")] {
+                    for sep in ["; ", ";", " ; "] {
+                        let mut text = String::from(pre);
+                        text.push_str(ind);
+                        text.push_str(dir);
+                        text.push('\n');
+                        text.push_str(ind);
+                        let a = text.len();
+                        text.push_str(st);
+                        text.push_str(sep.trim_end());
+                        let b = text.len();
+                        text.push_str(&sep[sep.trim_end().len()..]);
+                        text.push_str(nb);
+                        text.push('\n');
+                        text.push_str(post);
+                        let mut c = case("F-IGN", Dial::Core, text);
+                        c.meta.ignored = vec![(a, b)];
+                        c.meta.comments = 1;
+                        v.push(c);
+                    }
+                }
+            }
+        }
+    }
+    for last in ["return   1 ;  -- upper bound", "return   1 ;", "break ;", "return   a ,  b;"] {
+        for dir in ["-- stylua: ignore", "--[[ stylua: ignore ]]"] {
+            for (pre, post) in [("if x > 1 then\n", "end\n"), ("while x do\n", "end\n"), ("function f()\n", "end\n"), ("do\n", "end\n")] {
+                if last.starts_with("break") && !pre.starts_with("while") {
+                    continue;
+                }
+                for blank in ["", "\n"] {
+                    let mut text = String::from(pre);
+                    text.push_str(blank);
+                    text.push('\t');
+                    text.push_str(dir);
+                    text.push_str("\n\t");
+                    let a = text.len();
+                    // the ignored node is the statement with its `;` (a trailing comment is trailing trivia of the `;`)
+                    let end = last.find(';').map(|i| i + 1).unwrap_or(last.len());
+                    text.push_str(last);
+                    let b = a + end;
+                    text.push('\n');
+                    text.push_str(post);
+                    let mut c = case("F-IGN", Dial::Core, text);
+                    c.meta.ignored = vec![(a, b)];
+                    c.meta.comments = 1;
+                    v.push(c);
+                }
+            }
+        }
+    }
+    v
+}
+
+/// an `ignore start` / `ignore end` region followed by a statement (ordinary or last) in a CRLF / space-indented / LF file: the
+/// region is verbatim, the statement behind `ignore end` is ordinary formatted text
+pub fn f_ign_after_region() -> Vec<Case> {
+    let mut v = Vec::new();
+    for after in ["return   x  ,  1", "local   y  =  2", "f(  x  )", "break"] {
+        for (pre, post, ind) in [("", "", ""), ("function g()\n", "end\n", "   "), ("while a do\n", "end\n", "\t")] {
+            if after == "break" && !pre.starts_with("while") {
+                continue;
+            }
+            if after.starts_with("return") && pre.starts_with("while") {
+                continue;
+            }
+            for nl in ["\n", "\r\n"] {
+                for eof in [true, false] {
+                    let mut text = String::from(pre).replace('\n', nl);
+                    text.push_str(&format!("{}-- stylua: ignore start{}", ind, nl));
+                    text.push_str(ind);
+                    let a = text.len();
+                    text.push_str("local   x   =  1");
+                    let b = text.len();
+                    text.push_str(nl);
+                    text.push_str(&format!("{}-- stylua: ignore end{}", ind, nl));
+                    text.push_str(ind);
+                    text.push_str(after);
+                    if eof || !post.is_empty() {
+                        text.push_str(nl);
+                    }
+                    text.push_str(&post.replace('\n', nl));
+                    let mut c = case("F-IGN", Dial::Core, text);
+                    c.meta.ignored = vec![(a, b)];
+                    c.meta.comments = 2;
                     v.push(c);
                 }
             }
